@@ -70,11 +70,18 @@ func gen(g *mon.Gen) {
 		}
 		g.Emit(&Case{Layer: "A", Kind: "cuts2", FCs: fcs, Seed: rng.Int63()})
 	}
+	// hostile payloads: write requests (FC15/16/23) whose data bytes are themselves complete request frames, every cut
+	for i := 0; i < g.Pick(40, 600); i++ {
+		g.Emit(&Case{Layer: "A", Kind: "embedded", FCs: []int{[]int{16, 15, 23}[i%3], int(specref.FCs[rng.Intn(10)])}, Seed: rng.Int63()})
+	}
 	for i := 0; i < g.Pick(400, 20000); i++ {
 		k := 1 + rng.Intn(6)
 		fcs := make([]int, k)
 		for j := range fcs {
 			fcs[j] = int(specref.FCs[rng.Intn(10)])
+			if rng.Intn(8) == 0 {
+				fcs[j] = 0 // a well-formed frame with an unsupported function code (answered with exception 01, then consumed)
+			}
 		}
 		g.Emit(&Case{Layer: "A", Kind: "random", FCs: fcs, Seed: rng.Int63()})
 	}
@@ -99,8 +106,65 @@ func gen(g *mon.Gen) {
 }
 
 // stream builds the request frames of a case.
+// embeddedPayload returns data bytes that are a sequence of valid TCP request frames (padded to an even length).
+func embeddedPayload(rng *rand.Rand, max int) []byte {
+	var out []byte
+	for len(out) < max-12 {
+		q := libx.LegalReq(rng, []uint8{3, 1, 6, 5, 17, 4}[rng.Intn(6)], 0)
+		q.TID = uint16(0x7700 + rng.Intn(200))
+		f := q.Encode(specref.TCP)
+		if len(out)+len(f) > max {
+			break
+		}
+		out = append(out, f...)
+		if rng.Intn(3) == 0 {
+			break
+		}
+	}
+	if len(out)%2 == 1 {
+		out = append(out, 0)
+	}
+	return out
+}
+
 func stream(c *Case, rng *rand.Rand) (frames [][]byte, err error) {
+	if c.Kind == "embedded" {
+		fc := uint8(c.FCs[0])
+		q := specref.Req{FC: fc, Unit: libx.U8(rng), TID: 0x1100, Addr: libx.U16(rng)}
+		d := embeddedPayload(rng, 60)
+		if rng.Intn(2) == 0 { // some leading bytes so that the embedded frame does not start right at the payload start
+			d = append(libx.RandBytes(rng, 2*(1+rng.Intn(3))), d...)
+		}
+		switch fc {
+		case 16:
+			q.Qty, q.Data = uint16(len(d)/2), d
+		case 15:
+			q.Qty, q.Data = uint16(8*len(d)), d
+		case 23:
+			q.Qty, q.WAddr, q.WQty, q.Data = uint16(1+rng.Intn(10)), libx.U16(rng), uint16(len(d)/2), d
+		}
+		req, e := libx.NewRequest(specref.TCP, q)
+		if e != nil {
+			return nil, e
+		}
+		frames = append(frames, req.Bytes())
+		q2 := libx.LegalReq(rng, uint8(c.FCs[1]), 0)
+		q2.TID = 0x1201
+		if (q2.FC == 1 || q2.FC == 2) && q2.Qty > 125 {
+			q2.Qty = 5
+		}
+		req2, e := libx.NewRequest(specref.TCP, q2)
+		if e != nil {
+			return nil, e
+		}
+		return append(frames, req2.Bytes()), nil
+	}
 	for i, fc := range c.FCs {
+		if fc == 0 {
+			ufc := []byte{7, 8, 11, 20, 22, 24, 43, 100}[rng.Intn(8)]
+			frames = append(frames, specref.Frame(specref.TCP, uint16(0x1100+i*0x101), libx.U8(rng), append([]byte{ufc}, libx.RandBytes(rng, 2+rng.Intn(9))...)))
+			continue
+		}
 		size := 0.0
 		if c.Size == 1 {
 			size = 0.5
@@ -144,7 +208,11 @@ func refReplies(c *Case, frames [][]byte) [][]byte {
 	dev := simdev.New(devSeed(c), "srv")
 	var out [][]byte
 	for _, f := range frames {
-		out = append(out, dev.Serve(specref.TCP, f))
+		rep := dev.Serve(specref.TCP, f)
+		if rep == nil && len(f) >= 9 && !specref.Supported(f[7]) { // unsupported function: exception 01 addressed to the request
+			rep = []byte{f[0], f[1], 0, 0, 0, 3, f[6], f[7] | 0x80, 1}
+		}
+		out = append(out, rep)
 	}
 	return out
 }
@@ -286,6 +354,19 @@ func run(ci any, r *mon.Rec) {
 		}
 		if c.Lo == 0 {
 			r.Sample(map[string]any{"layer": "A", "kind": "all segmentations", "fc": c.FCs, "frame": fmt.Sprintf("% x", frames[0]), "segmentations": 1 << uint(total-1)})
+		}
+	case "embedded":
+		judgeA(c, r, frames, replies, nil)
+		for a := 1; a < total; a++ {
+			judgeA(c, r, frames, replies, []int{a})
+			r.Distinct(mon.Mix(h, 0xE, uint64(a)))
+		}
+		for i := 0; i < 40; i++ {
+			a, b := 1+rng.Intn(total-1), 1+rng.Intn(total-1)
+			if a > b {
+				a, b = b, a
+			}
+			judgeA(c, r, frames, replies, []int{a, b})
 		}
 	case "cuts2":
 		judgeA(c, r, frames, replies, nil)
